@@ -271,6 +271,35 @@ where
   }
 }
 
+/// Upper bound on what is allocated ahead of the bytes actually present in the
+/// input: a length announced in a CBOR head is untrusted.
+const MAX_PREALLOC: usize = 4096;
+
+/// Read exactly `n` bytes, growing the buffer in bounded steps so that a huge
+/// announced length fails with an I/O error at end of input instead of
+/// requesting the whole allocation up front.
+fn read_exact_bounded<R: ciborium_io::Read>(
+  decoder: &mut Decoder<R>,
+  n: usize,
+) -> Result<Vec<u8>, DecodeError>
+where
+  ciborium_ll::Error<R::Error>: Into<DecodeError>,
+{
+  let mut buf = Vec::new();
+  let mut remaining = n;
+  while remaining > 0 {
+    let take = remaining.min(MAX_PREALLOC);
+    let start = buf.len();
+    buf.resize(start + take, 0u8);
+    decoder.read_exact(&mut buf[start..]).map_err(|e| {
+      let io_err: ciborium_ll::Error<R::Error> = ciborium_ll::Error::Io(e);
+      io_err.into()
+    })?;
+    remaining -= take;
+  }
+  Ok(buf)
+}
+
 fn read_bytes<R: ciborium_io::Read>(
   decoder: &mut Decoder<R>,
   len: Option<usize>,
@@ -279,14 +308,7 @@ where
   ciborium_ll::Error<R::Error>: Into<DecodeError>,
 {
   match len {
-    Some(n) => {
-      let mut buf = vec![0u8; n];
-      decoder.read_exact(&mut buf).map_err(|e| {
-        let io_err: ciborium_ll::Error<R::Error> = ciborium_ll::Error::Io(e);
-        io_err.into()
-      })?;
-      Ok(buf)
-    }
+    Some(n) => read_exact_bounded(decoder, n),
     None => {
       // Indefinite-length bytes: read segments until break
       let mut result = Vec::new();
@@ -315,11 +337,7 @@ where
 {
   match len {
     Some(n) => {
-      let mut buf = vec![0u8; n];
-      decoder.read_exact(&mut buf).map_err(|e| {
-        let io_err: ciborium_ll::Error<R::Error> = ciborium_ll::Error::Io(e);
-        io_err.into()
-      })?;
+      let buf = read_exact_bounded(decoder, n)?;
       String::from_utf8(buf).map_err(|_| DecodeError::Syntax(decoder.offset()))
     }
     None => {
@@ -350,7 +368,7 @@ where
 {
   match len {
     Some(n) => {
-      let mut items = Vec::with_capacity(n);
+      let mut items = Vec::with_capacity(n.min(MAX_PREALLOC));
       for _ in 0..n {
         items.push(decode_value(decoder)?);
       }
@@ -382,7 +400,7 @@ where
 {
   match len {
     Some(n) => {
-      let mut entries = Vec::with_capacity(n);
+      let mut entries = Vec::with_capacity(n.min(MAX_PREALLOC));
       for _ in 0..n {
         let key = decode_value(decoder)?;
         let val = decode_value(decoder)?;
